@@ -188,6 +188,18 @@ func genCase(t *rapid.T) Case {
 	default: // small: < max, around min
 		c.Pieces = []gen.Piece{{Kind: "rand", Len: gen.Around(t, "len", mx, mn, mn+1, 48, mx), Seed: rapid.Uint64().Draw(t, "s")}}
 	}
+	if mx > 100 && rapid.IntRange(0, 5).Draw(t, "hashwin") == 0 {
+		// a window whose hash is one of the values no random input ever holds (all ones, zero, the sign bit ...),
+		// placed where the chunker evaluates it: more than min and less than max bytes into the input
+		h := rapid.SampledFrom([]uint32{0xFFFFFFFF, 0xFFFFFFFF, 0xFFFFFFFF, 0, 0, 1, 0x80000000, 0x7FFFFFFF, 0xFFFFFFFE}).Draw(t, "hwval")
+		lo, hi := max0(mn+1-48), max0(mx-50)
+		if hi < lo {
+			hi = lo
+		}
+		pre := rapid.IntRange(lo, hi).Draw(t, "hwpre")
+		c.Pieces = append([]gen.Piece{{Kind: "rand", Len: pre, Seed: rapid.Uint64().Draw(t, "hws1")},
+			{Kind: "hashwin", Len: 48, H: h, Seed: rapid.Uint64().Draw(t, "hws2")}}, c.Pieces...)
+	}
 	c.Ns = []int{1, nmax}
 	if rapid.Bool().Draw(t, "moreN") {
 		c.Ns = append(c.Ns, rapid.IntRange(2, 16).Draw(t, "n2"))
@@ -514,6 +526,34 @@ func run(c Case) (o hx.Outcome) {
 	if zeroRun >= 3*int(sz.Max) {
 		o.Class("zero-run>=3max")
 	}
+	{ // windows with a prescribed hash: did the rule evaluate them (their end lies in the cut region of the chunk they are in)?
+		pos := uint64(0)
+		if c.CatarHead > 0 {
+			pos = 64
+		}
+		for _, p := range c.Pieces {
+			if p.Kind == "hashwin" {
+				end := pos + 48
+				for _, sp := range want {
+					if end > sp.Start && end <= sp.Start+sp.Len {
+						m := min(sz.Max, uint64(len(blob))-sp.Start)
+						if l := end - sp.Start; l >= sz.Min+1 && l < m {
+							o.Class("hashwin:evaluated", fmt.Sprintf("hashwin:evaluated:%#x", p.H))
+							if l == sp.Len {
+								o.Class("hashwin:is-a-cut")
+							}
+						}
+						break
+					}
+				}
+				pos += 48
+				continue
+			}
+			if p.Len > 0 {
+				pos += uint64(p.Len)
+			}
+		}
+	}
 	if kinds["const"] {
 		o.Class("constant-data")
 	}
@@ -616,7 +656,7 @@ var spec = &hx.Spec[Case]{
 	Rule: "cases = (blob from pieces: random/zero runs/constant/periodic/repeats at lengths around multiples of min, max and of size/n; (min,avg,max) incl. min=max; worker counts; read fragmentation vector; perturbation vectors for the pchunk.* hook sites); " +
 		"oracle = independent reference chunker (direct 48-byte window buzhash); non-trivial = effective worker count >= 2 and ChunksProduced > ChunksAccepted+1 (workers really overlapped); distinct by (length, sizes, ns, fragmentation, content hash)",
 	Assumptions: []string{"reference chunker reproduces casync's chunker.index (self test)", "schedules are sampled via hook-site perturbation, not enumerated", "buzhash table copied from casync at authoring time"},
-	Required:    []string{"avg>=11000", "avg:precision-sensitive", "controlled-schedule", "zero-run>=3max", "constant-data", "periodic-data", "size<max", "size-0", "effective-n>=2", "workers-overlapped", "fragmented-reads", "span%max==0", "span%max==max/2", "max>8MiB", "input-starts-with-catar-entry", "avg:null-window-is-boundary"},
+	Required:    []string{"avg>=11000", "avg:precision-sensitive", "controlled-schedule", "zero-run>=3max", "constant-data", "periodic-data", "size<max", "size-0", "effective-n>=2", "workers-overlapped", "fragmented-reads", "span%max==0", "span%max==max/2", "max>8MiB", "input-starts-with-catar-entry", "avg:null-window-is-boundary", "hashwin:evaluated", "hashwin:evaluated:0xffffffff", "hashwin:evaluated:0x0"},
 	Gen:         genCase,
 	Run:         run,
 	Journal:     true,
